@@ -21,7 +21,7 @@ def free_port():
 
 class Tacd:
     def __init__(self, binary, domain, ext, listen=None, key_type=None, digest=None, domain_file=None,
-                 ext_file=None, stdin_text=None, extra=None, cwd=None):
+                 ext_file=None, stdin_text=None, extra=None, cwd=None, nofile=None):
         self.port = None
         if listen is None:
             self.port = free_port()
@@ -43,9 +43,16 @@ class Tacd:
         if extra:
             cmd += extra
         self.errf = tempfile.TemporaryFile(dir=vlib.BUILD)
+        pre = None
+        if nofile:
+            # a small descriptor limit, so that a burst of idle connections makes accept() itself fail (EMFILE)
+            import resource
+
+            def pre(n=nofile):
+                resource.setrlimit(resource.RLIMIT_NOFILE, (n, n))
         self.p = subprocess.Popen(cmd, stdin=subprocess.PIPE if stdin_text is not None else subprocess.DEVNULL,
                                   stdout=subprocess.DEVNULL, stderr=self.errf, cwd=cwd,
-                                  env=vlib.env_offline())
+                                  env=vlib.env_offline(), preexec_fn=pre)
         if stdin_text is not None:
             try:
                 self.p.stdin.write(stdin_text.encode())
@@ -151,7 +158,8 @@ BEHAVIOURS = ["connect-close", "garbage", "plain-http", "tls-no-alpn", "tls-fore
               "hello-abandoned", "stalled-50"]
 # aborted variants of "TCP connect + close" (the close is a RST, possibly while the connection is
 # still in the listen queue): part of every history's prologue in C17
-EXTRA_BEHAVIOURS = ["connect-reset-burst"]
+EXTRA_BEHAVIOURS = ["connect-reset-burst", "fd-exhaustion"]
+NOFILE_FOR_EXHAUSTION = 24
 
 
 def behave(listen, kind, held):
@@ -170,6 +178,22 @@ def behave(listen, kind, held):
                     s.close()      # RST instead of FIN
                 except OSError:
                     pass
+        elif kind == "fd-exhaustion":
+            # more idle connections than the daemon has descriptors (it was started with a small limit):
+            # accept() fails with EMFILE for a while; then the burst goes away
+            burst = []
+            for _ in range(60):
+                try:
+                    burst.append(connect(listen, timeout=1.0))
+                except OSError:
+                    pass
+            time.sleep(1.0)
+            for s in burst:
+                try:
+                    s.close()
+                except OSError:
+                    pass
+            time.sleep(0.3)
         elif kind == "garbage":
             s = connect(listen)
             s.sendall(os.urandom(300))
